@@ -6,8 +6,15 @@ import (
 	"encoding/base64"
 	"fmt"
 	"path"
+	"regexp"
+	"sort"
 	"strings"
+
+	"github.com/evanw/esbuild/pkg/verifsim"
 )
+
+// a hashed file name as esbuild writes it: 8 characters of base32 after '-', '.' or '/'
+var reHashName = regexp.MustCompile(`[A-Za-z0-9_./-]*[-./][A-Z2-7]{8}[A-Za-z0-9_.-]*`)
 
 func init() { scenarios["C18"] = scenarioC18 }
 
@@ -73,6 +80,50 @@ func scenarioC18(rc *RunCtx) *Violation {
 		}
 		return true
 	}
+	// "import() list" profile: one entry point imports several other entry points lazily
+	// through a single array literal; an edit that swaps two members changes nothing in the
+	// importer's output but which hashed chunk is referenced at which position
+	if g.n(8) == 0 && o.Splitting {
+		e := p.Mods[p.Entries[0]]
+		if isJS(e.Kind) {
+			n := 0
+			for _, t := range p.Mods {
+				if n >= 3 {
+					break
+				}
+				if t.ID == e.ID || t.Deleted || !isJS(t.Kind) || importsTarget(e, t.ID) {
+					continue
+				}
+				e.Imports = append(e.Imports, Import{Target: t.ID, Style: ImpDynamicList})
+				if !entryOf(p, t.ID) {
+					p.Entries = append(p.Entries, t.ID)
+				}
+				n++
+			}
+			if n >= 2 {
+				rc.Probe("import_list_profile")
+				cfg.ExtraEdit = func(step int, p *Project, d *verifsim.Disk) string {
+					if g.n(5) >= 2 {
+						return ""
+					}
+					var list []int
+					for i, im := range e.Imports {
+						if im.Style == ImpDynamicList {
+							list = append(list, i)
+						}
+					}
+					if len(list) < 2 {
+						return ""
+					}
+					a := g.n(len(list) - 1)
+					i, j := list[a], list[a+1]
+					e.Imports[i], e.Imports[j] = e.Imports[j], e.Imports[i]
+					p.WriteTo(d, cfg.InPlace)
+					return fmt.Sprintf("reorder-imports %s import() list members %d,%d", e.Path, i, j)
+				}
+			}
+		}
+	}
 	p.WriteTo(d, false)
 	rc.Note(fmt.Sprintf("proj:%x", fnv64(fmt.Sprint(describeProject(p, o)))))
 	recs, s := RunHistory(rc, p, o, d, cfg)
@@ -102,7 +153,12 @@ func scenarioC18(rc *RunCtx) *Violation {
 			c := string(f.Contents)
 			if prev, ok := table[rel]; ok {
 				if prev.content != c {
-					return &Violation{Class: "same-path-different-bytes", Key: path.Ext(rel),
+					key := path.Ext(rel)
+					if permutedRefsOnly(prev.content, c) {
+						// the two contents differ only in which hashed file is referenced where
+						key += ":only-references-permuted"
+					}
+					return &Violation{Class: "same-path-different-bytes", Key: key,
 						Detail: fmt.Sprintf("%s build of step %d emits %s with %d bytes, %s emitted the same path with %d different bytes (%s); option changes: %v; history: %s",
 							label, r.Step, rel, len(c), prev.where, len(prev.content), firstDiff(prev.content, c), optChanges, strings.Join(hist, " || "))}
 				}
@@ -175,4 +231,21 @@ func scenarioC18(rc *RunCtx) *Violation {
 	}
 	rc.Note("hist:" + fmt.Sprintf("%x", fnv64(strings.Join(hist, "|")+strings.Join(optChanges, "|"))))
 	return nil
+}
+
+// permutedRefsOnly: a and b are equal once every hashed file name is blanked, and they
+// mention the same multiset of hashed names (i.e. only the positions of the references
+// to other hashed outputs differ).
+func permutedRefsOnly(a, b string) bool {
+	if a == b {
+		return false
+	}
+	blank := func(s string) (string, []string) {
+		names := reHashName.FindAllString(s, -1)
+		sort.Strings(names)
+		return reHashName.ReplaceAllString(s, "#"), names
+	}
+	ba, na := blank(a)
+	bb, nb := blank(b)
+	return ba == bb && strings.Join(na, ",") == strings.Join(nb, ",") && len(na) >= 2
 }
